@@ -467,8 +467,20 @@ func lowerFlat(s string) (string, error) {
 		}
 		return "", fmt.Errorf("bad quantifier head %q", head)
 	}
-	// implication, right associative, lowest precedence
-	parts := splitTop(s, "==>")
+	// equivalence binds loosest, then implication (right associative)
+	parts := splitTop(s, "<==>")
+	if len(parts) == 2 {
+		a, err := lowerFlat(parts[0])
+		if err != nil {
+			return "", err
+		}
+		b, err := lowerFlat(parts[1])
+		if err != nil {
+			return "", err
+		}
+		return fmt.Sprintf("govcIff(%s, %s)", a, b), nil
+	}
+	parts = splitTop(s, "==>")
 	if len(parts) > 1 {
 		last, err := lowerFlat(parts[len(parts)-1])
 		if err != nil {
@@ -483,18 +495,6 @@ func lowerFlat(s string) (string, error) {
 			acc = fmt.Sprintf("govcImp(%s, %s)", l, acc)
 		}
 		return acc, nil
-	}
-	parts = splitTop(s, "<==>")
-	if len(parts) == 2 {
-		a, err := lowerFlat(parts[0])
-		if err != nil {
-			return "", err
-		}
-		b, err := lowerFlat(parts[1])
-		if err != nil {
-			return "", err
-		}
-		return fmt.Sprintf("govcIff(%s, %s)", a, b), nil
 	}
 	return s, nil
 }
@@ -516,6 +516,13 @@ func govcTerm[T any](id int, x T) T                       { return x }
 func govcLoc[T any](id int, x T) T                        { return x }
 func govcFresh[T any](x T) bool                           { return true }
 func govcTypeIs[T any](x interface{}) bool                { _, ok := x.(T); return ok }
+func govcSame[T any](a, b T) bool                         { return true }
+func govcIsNaN(x float64) bool                            { return x != x }
+func govcIsEOF(err error) bool                            { return false }
+func govcIsUEOF(err error) bool                           { return false }
+func govcErrIs[T any](err error, target T) bool           { return false }
+func govcSameBase[T any](a, b []T) bool                   { return true }
+func govcOffset[T any](a []T) int                         { return 0 }
 `
 
 // genOverlay produces the Go source of the overlay file of one package.
@@ -526,6 +533,12 @@ func genOverlay(cf *ContractFile) (string, error) {
 	// imports: only those referenced
 	body := &strings.Builder{}
 	body.WriteString(overlayPrelude)
+	for _, im := range cf.Imports {
+		if strings.Trim(im, `"`) == "reflect" {
+			body.WriteString("func govcIfaceOf(v reflect.Value) interface{} { return v.Interface() }\n")
+			body.WriteString("func govcMsgOf[T any](v reflect.Value) T { return v.Interface().(T) }\n")
+		}
+	}
 	for _, d := range cf.Decls {
 		body.WriteString(d + "\n")
 	}
@@ -633,8 +646,9 @@ func genOverlay(cf *ContractFile) (string, error) {
 	return b.String(), nil
 }
 
-var reBuiltin = regexp.MustCompile(`\b(old|ite|fresh)\(`)
+var reBuiltin = regexp.MustCompile(`\b(old|ite|fresh|same|isNaN|ifaceOf|samebase|offset|isEOF|isUEOF|iserr)\(`)
 var reTypeIs = regexp.MustCompile(`\btypeis\[`)
+var reMsgOf = regexp.MustCompile(`\bmsgOf\[`)
 
 // rewriteBuiltins maps the short spec builtins to their overlay names.
 func rewriteBuiltins(s string) string {
@@ -646,9 +660,26 @@ func rewriteBuiltins(s string) string {
 			return "govcIte("
 		case "fresh(":
 			return "govcFresh("
+		case "same(":
+			return "govcSame("
+		case "isNaN(":
+			return "govcIsNaN("
+		case "isEOF(":
+			return "govcIsEOF("
+		case "isUEOF(":
+			return "govcIsUEOF("
+		case "iserr(":
+			return "govcErrIs("
+		case "samebase(":
+			return "govcSameBase("
+		case "offset(":
+			return "govcOffset("
+		case "ifaceOf(":
+			return "govcIfaceOf("
 		}
 		return m
 	})
 	s = reTypeIs.ReplaceAllString(s, "govcTypeIs[")
+	s = reMsgOf.ReplaceAllString(s, "govcMsgOf[")
 	return s
 }
